@@ -503,7 +503,8 @@ theorem set_gen (hT : legalThreshold T = true) :
       flatten d t' = (flatten d t).set i (toStorable T (hdr d t).id.addr v c).1 ∧
       (hdr d t').count = (hdr d t).count ∧
       (hdr d t').size ≤ (hdr d t).size + maxInlineArr T ∧
-      (hdr d t).size ≤ (hdr d t').size + maxInlineArr T
+      (hdr d t).size ≤ (hdr d t').size + maxInlineArr T ∧
+      (d ≠ 0 → (hdr d t).size ≤ (hdr d t').size + 14)
   | 0, t, top, i, v, c => by
     refine forall_ofData ?_ t; intro s hinv hni hv hi
     have hs : DShape T top s := (shape_zero T top s).1 (hinv.shape hni)
@@ -511,7 +512,7 @@ theorem set_gen (hT : legalThreshold T = true) :
     obtain ⟨s', c', heq, hs', hel, hid, hn, hcnt, hsz, hle1, hle2, hc⟩ :=
       DataSlab.set_spec T hT top s i v c hs hv hi
     refine ⟨ofData s', c', set_zero_ok s s' i v _ c c' heq, stepOk_data T top s s' _ _ hs' hid hn hc,
-      by simpa using hel, by simpa using hcnt, ?_, ?_⟩
+      by simpa using hel, by simpa using hcnt, ?_, ?_, fun h => absurd rfl h⟩
     · simp only [hdr_zero]; omega
     · simp only [hdr_zero]; omega
   | d + 1, t, top, i, v, c => by
@@ -526,7 +527,7 @@ theorem set_gen (hT : legalThreshold T = true) :
     have hB : ∀ t ∈ B, TreeInv T d false t := fun t ht => hs.kids_inv t (by rw [hch]; simp [ht])
     have hc : TreeInv T d false child := hs.kids_inv child (by rw [hch]; simp)
     have hcaddr : (hdr d child).id.addr = m.hdr.id.addr := hs.kids_addr child (by rw [hch]; simp)
-    obtain ⟨child', c1, hset, hstep, hflat, hcnt, hsz1, hsz2⟩ :=
+    obtain ⟨child', c1, hset, hstep, hflat, hcnt, hsz1, hsz2, _⟩ :=
       set_gen hT d child false adj v c hc hc.notInl_of_false hv hadj
     rw [hcaddr] at hflat
     have hlenAB : m.children.length = A.length + 1 + B.length := by rw [hch]; simp; omega
@@ -570,7 +571,8 @@ theorem set_gen (hT : legalThreshold T = true) :
             (toStorable T (hdr (d + 1) (ofMeta m)).id.addr v c).1 ∧
           (hdr (d + 1) t').count = (hdr (d + 1) (ofMeta m)).count ∧
           (hdr (d + 1) t').size ≤ (hdr (d + 1) (ofMeta m)).size + maxInlineArr T ∧
-          (hdr (d + 1) (ofMeta m)).size ≤ (hdr (d + 1) t').size + maxInlineArr T := by
+          (hdr (d + 1) (ofMeta m)).size ≤ (hdr (d + 1) t').size + maxInlineArr T ∧
+          (d + 1 ≠ 0 → (hdr (d + 1) (ofMeta m)).size ≤ (hdr (d + 1) t').size + 14) := by
       intro m2 c2 htail heq
       obtain ⟨a1, a2, a3, a4, a5, a6⟩ := assemble (m := m) (m1 := setM1 m A.length child') (A := A)
         (B := B) (child := child) (child' := child') hs hch hch1 rfl rfl rfl hcount1 hstep.repl htail
@@ -579,10 +581,11 @@ theorem set_gen (hT : legalThreshold T = true) :
       rw [hch1] at hl1 hl2
       simp only [List.length_append, List.length_cons] at hl1 hl2
       refine ⟨ofMeta m2, c2, set_succ_ok m m2 i A.length adj v _ c c1 c2 child child' hroute hget hset heq,
-        ⟨(shape_succ T d top m2).2 a1, by simpa using a3, a2⟩, ?_, a5, ?_, ?_⟩
+        ⟨(shape_succ T d top m2).2 a1, by simpa using a3, a2⟩, ?_, a5, ?_, ?_, ?_⟩
       · rw [a4, flatten_succ, hflat, hch, hi2, hdr_succ, hflatm, set_append_mid _ _ _ _ _ hadj]
       · simp only [hdr_succ]; have := F.lo; have := F.inlE; omega
       · simp only [hdr_succ]; have := F.lo; have := F.inlE; omega
+      · intro _; simp only [hdr_succ]; omega
     have hcmax := hc.le_max
     have hcmin := hc.ge_min
     by_cases hfull : ATree.isFull T d child' = true
@@ -627,7 +630,8 @@ theorem remove_gen (hT : legalThreshold T = true) :
       flatten d t' = (flatten d t).eraseIdx i ∧
       (hdr d t').count + 1 = (hdr d t).count ∧
       (hdr d t').size ≤ (hdr d t).size ∧
-      (hdr d t).size ≤ (hdr d t').size + maxInlineArr T
+      (hdr d t).size ≤ (hdr d t').size + maxInlineArr T ∧
+      (d ≠ 0 → (hdr d t).size ≤ (hdr d t').size + 14)
   | 0, t, top, i, c => by
     refine forall_ofData ?_ t; intro s hinv hni hi
     have hs : DShape T top s := (shape_zero T top s).1 (hinv.shape hni)
@@ -636,7 +640,7 @@ theorem remove_gen (hT : legalThreshold T = true) :
       DataSlab.remove_spec T top s i c hs hi
     refine ⟨ofData s', c', remove_zero_ok s s' i _ c c' heq,
       stepOk_data T top s s' _ _ hs' hid hn (by omega),
-      by simpa using hel, by simpa using hcnt, ?_, ?_⟩
+      by simpa using hel, by simpa using hcnt, ?_, ?_, fun h => absurd rfl h⟩
     · simp only [hdr_zero]; omega
     · simp only [hdr_zero]; omega
   | d + 1, t, top, i, c => by
@@ -652,7 +656,7 @@ theorem remove_gen (hT : legalThreshold T = true) :
     have hc : TreeInv T d false child := hs.kids_inv child (by rw [hch]; simp)
     have hcaddr : (hdr d child).id.addr = m.hdr.id.addr := hs.kids_addr child (by rw [hch]; simp)
     have hcpos := hc.count_pos hT
-    obtain ⟨child', c1, hrem, hstep, hflat, hcnt, hsz1, hsz2⟩ :=
+    obtain ⟨child', c1, hrem, hstep, hflat, hcnt, hsz1, hsz2, _⟩ :=
       remove_gen hT d child false adj c hc hc.notInl_of_false hadj
     have hlenAB : m.children.length = A.length + 1 + B.length := by rw [hch]; simp; omega
     have hflatm : (A ++ child :: B).flatMap (flatten d)
@@ -695,7 +699,8 @@ theorem remove_gen (hT : legalThreshold T = true) :
           flatten (d + 1) t' = (flatten (d + 1) (ofMeta m)).eraseIdx i ∧
           (hdr (d + 1) t').count + 1 = (hdr (d + 1) (ofMeta m)).count ∧
           (hdr (d + 1) t').size ≤ (hdr (d + 1) (ofMeta m)).size ∧
-          (hdr (d + 1) (ofMeta m)).size ≤ (hdr (d + 1) t').size + maxInlineArr T := by
+          (hdr (d + 1) (ofMeta m)).size ≤ (hdr (d + 1) t').size + maxInlineArr T ∧
+          (d + 1 ≠ 0 → (hdr (d + 1) (ofMeta m)).size ≤ (hdr (d + 1) t').size + 14) := by
       intro m2 c2 htail hlen heq
       obtain ⟨a1, a2, a3, a4, a5, a6⟩ := assemble (m := m) (m1 := remM1 m A.length child') (A := A)
         (B := B) (child := child) (child' := child') hs hch hch1 rfl rfl rfl hcount1 hstep.repl htail
@@ -705,11 +710,12 @@ theorem remove_gen (hT : legalThreshold T = true) :
       have hcm : m.hdr.count ≥ 1 := by omega
       refine ⟨ofMeta m2, c2.emit (.store m2.hdr.id),
         remove_succ_ok m m2 i A.length adj _ c c1 c2 child child' hi' hroute hget hrem heq,
-        ⟨(shape_succ T d top m2).2 a1, by simpa using a3, a2⟩, ?_, ?_, ?_, ?_⟩
+        ⟨(shape_succ T d top m2).2 a1, by simpa using a3, a2⟩, ?_, ?_, ?_, ?_, ?_⟩
       · rw [a4, flatten_succ, hflat, hch, hi2, hflatm, eraseIdx_append_mid _ _ _ _ hadj]
       · simp only [hdr_succ, a5]; show m.hdr.count - 1 + 1 = _; omega
       · simp only [hdr_succ]; omega
       · simp only [hdr_succ]; have := F.lo; have := F.inlE; omega
+      · intro _; simp only [hdr_succ]; omega
     have hcmax := hc.le_max
     have hcmin := hc.ge_min
     by_cases hu : (hdr d child').size < minThr T
